@@ -8,6 +8,7 @@ import (
 	"github.com/grindlemire/go-lucene/pkg/driver"
 	"github.com/grindlemire/go-lucene/pkg/lucene/expr"
 	"github.com/grindlemire/go-lucene/verif/core"
+	"github.com/grindlemire/go-lucene/verif/gen"
 	"github.com/grindlemire/go-lucene/verif/mon"
 	"github.com/grindlemire/go-lucene/verif/qt"
 )
@@ -176,7 +177,7 @@ func (p c15) RunBatch(ctx *core.Ctx, batch int) {
 		return
 	}
 	r := ctx.Rand("deep")
-	leaves := qt.FullLeaves()
+	leaves := append(qt.FullLeaves(), qt.HostileLeaves(r, gen.HostileStrings, 12, false)...)
 	for i := 0; i < 600; i++ {
 		t := qt.RandomTree(r, leaves, 2+r.Intn(4))
 		if t.Size() > 40 {
